@@ -1,8 +1,8 @@
 /-
 C19 — Unicode text survives storage.
 Property theorems only; helper lemmas live in `Lemmas/Unicode.lean`.
-The model (`Model/Unicode.lean`) is the code after repo commits 312dc11 (real UTF-16) and
-edb2ce8 (legacy name fallback at write time).
+The model (`Model/Unicode.lean`) is the code after repo commits 53b2bbb (real UTF-16) and
+5b05d7b (legacy name fallback at write time).
 -/
 import PsdVerif.Lemmas.Unicode
 import PsdVerif.Generated.Strings
@@ -86,7 +86,7 @@ theorem unicode_string_value_any_reader_padding (s : Str) (pw pr : Nat) (bs pre 
     ∃ p, readUnicodeString (pre ++ bs ++ post) pre.length pr = .ok (s, p) ∧ p ≤ (pre ++ bs ++ post).length :=
   readUnicodeString_value s pw pr bs pre post (scalar_noPair s hs) hpr hw
 
-/-- What the fix (312dc11) changed: the per-character 16-bit array could not write an astral
+/-- What the fix (53b2bbb) changed: the per-character 16-bit array could not write an astral
 character and read a surrogate pair as two characters; the harness replays both witnesses on
 the real code on every run. -/
 theorem old_codec_defect :
